@@ -358,6 +358,10 @@ def eval_eqn(eqn, ins, ctx):
     if name == 'clamp':
         lo, x, hi = ins
         return [ELEMENTWISE['min'](ELEMENTWISE['max'](x, lo), hi)]
+    if name == 'gather' and is_sym(ins[1]) and any(t.op != 'const' for t in ins[1].reshape(-1)):
+        return _gather_sym(eqn, ins, ctx)
+    if name == 'dynamic_slice' and any(is_sym(x) and x.size == 1 and x.reshape(-1)[0].op != 'const' for x in ins[1:]):
+        return _dynamic_slice_sym(eqn, ins, ctx)
     if name in STRUCTURAL:
         return _struct(eqn, ins)
     if name == 'dot_general':
@@ -653,7 +657,94 @@ def _custom_linear_solve(eqn, ins, ctx):
 
 
 def _sort(eqn, ins, ctx):
-    raise Undecided('sort needs a handler (fork over permutations)')
+    """stable sort of short 1-D arrays along axis 0 by rank computation (ite terms)"""
+    p = eqn.params
+    if p.get('num_keys', 1) != 1 or p.get('dimension', 0) != 0:
+        raise Undecided('sort: only 1-D single-key sorts are modelled')
+    ops = [to_obj(x) for x in ins]
+    n = ops[0].shape[0]
+    if ops[0].ndim != 1 or n > 4:
+        raise Undecided('sort of shape %s' % (ops[0].shape,))
+    keys = [ops[0][i] for i in range(n)]
+    keyv = [k.v if isinstance(k, NV) else k for k in keys]
+    ranks = []
+    for i in range(n):
+        r = tm.const(0, INT)
+        for j in range(n):
+            if j == i:
+                continue
+            before = tm.or_(tm.lt(keyv[j], keyv[i]), tm.and_(tm.eq(keyv[j], keyv[i]), tm.TRUE if j < i else tm.FALSE))
+            r = tm.add(r, tm.ite(before, tm.const(1, INT), tm.const(0, INT)))
+        ranks.append(r)
+    outs = []
+    for o in ops:
+        res = onp.empty(n, dtype=object)
+        for pos in range(n):
+            v = o[n - 1]
+            for i in range(n - 2, -1, -1):
+                v = nv_ite(tm.eq(ranks[i], tm.const(pos, INT)), o[i], v)
+            # the last candidate must also be guarded; by construction exactly one rank equals pos
+            res[pos] = v
+        outs.append(res)
+    return outs
+
+
+def _gather_sym(eqn, ins, ctx):
+    """x[idx] for a 1-D operand and a symbolic integer index array (take along axis 0, clipped)"""
+    operand, idx = to_obj(ins[0]), to_obj(ins[1])
+    dn = eqn.params['dimension_numbers']
+    sizes = eqn.params['slice_sizes']
+    if operand.ndim != 1 or tuple(sizes) != (1,) or tuple(dn.collapsed_slice_dims) != (0,) or tuple(dn.start_index_map) != (0,) or idx.shape[-1] != 1:
+        raise Undecided('front end J: gather with symbolic index (only 1-D take is modelled)')
+    n = operand.shape[0]
+    out = onp.empty(idx.shape[:-1], dtype=object)
+    for pos in onp.ndindex(*idx.shape[:-1]):
+        t = idx[pos + (0,)]
+        v = operand[n - 1]
+        for k in range(n - 2, -1, -1):
+            c = tm.le(t, tm.const(0, INT)) if k == 0 else tm.eq(t, tm.const(k, INT))
+            v = nv_ite(c, operand[k], v)
+        out[pos] = v
+    return [out]
+
+
+def _dynamic_slice_sym(eqn, ins, ctx):
+    """dynamic_slice with symbolic start indices: ite chain over the admissible (clamped) starts"""
+    operand = to_obj(ins[0])
+    starts = ins[1:]
+    sizes = eqn.params['slice_sizes']
+    import itertools
+    cand = []
+    for d, (st, sz) in enumerate(zip(starts, sizes)):
+        hi = operand.shape[d] - sz
+        if is_sym(st) and not (st[()].op == 'const'):
+            cand.append([(k, st[()]) for k in range(hi + 1)])
+        else:
+            k = int(st[()]) if is_sym(st) else int(onp.asarray(st))
+            cand.append([(max(0, min(k, hi)), None)])
+    if sum(len(c) for c in cand) > 24:
+        raise Undecided('dynamic_slice: too many symbolic start positions')
+    result = None
+    for combo in reversed(list(itertools.product(*cand))):
+        sl = tuple(slice(k, k + sz) for (k, _), sz in zip(combo, sizes))
+        piece = operand[sl]
+        conds = []
+        for d, ((k, t), sz) in enumerate(zip(combo, sizes)):
+            if t is None:
+                continue
+            hi = operand.shape[d] - sz
+            if k == 0:
+                conds.append(tm.le(t, tm.const(0, INT)))
+            elif k == hi:
+                conds.append(tm.le(tm.const(hi, INT), t))
+            else:
+                conds.append(tm.eq(t, tm.const(k, INT)))
+        c = tm.and_(*conds) if conds else tm.TRUE
+        if result is None:
+            result = piece.copy()
+        else:
+            result = _vec(lambda a, b, c=c: nv_ite(c, a, b), 2)(piece, result)
+    return [result]
 
 
 # ---------------------------------------------------------------------------
@@ -825,7 +916,21 @@ def _uf_jvp(primals, tangents, *, name, deriv):
 
 
 ad.primitive_jvps[uf_p] = _uf_jvp
-batching.defbroadcasting(uf_p)
+
+
+def _uf_batch(args, dims, *, name, deriv):
+    size = next(a.shape[d] for a, d in zip(args, dims) if d is not None)
+    moved = []
+    for a, d in zip(args, dims):
+        if d is None:
+            moved.append(jnp.broadcast_to(a, (size,) + tuple(a.shape)))
+        else:
+            moved.append(jnp.moveaxis(a, d, 0))
+    moved = jnp.broadcast_arrays(*moved)
+    return uf_p.bind(*moved, name=name, deriv=deriv), 0
+
+
+batching.primitive_batchers[uf_p] = _uf_batch
 
 
 def uf_name(name, deriv):
